@@ -75,7 +75,7 @@ def c01_fuzz_post(pid, tier, seed, ctx):
                 continue
             seen.add(tuple(why))
             h = hashlib.sha1(open(case, "rb").read()).hexdigest()[:10]
-            dst = os.path.join(V, "replays", pid, "found-fuzz-%s.case" % h)
+            dst = os.path.join(H.OUT, "replays", pid, "found-fuzz-%s.case" % h)
             os.makedirs(os.path.dirname(dst), exist_ok=True)
             open(dst, "w").write("".join("# %s\n" % w for w in why) + open(case).read())
             violations.append((dst, why))
